@@ -298,3 +298,4 @@ def run(ctx):
   from ..selfcheck import lint_a_fixture_matches
   ctx.check(lint_a_fixture_matches(), "LINT-a", "fixture|discarded-map-is-detected", "ttverif/fixtures/lint_a.py",
             "the rule still matches its positive fixture", "LINT-a no longer matches its positive fixture (rule broken)")
+  common.check_history_independence(ctx, ["ttconv.model", "ttconv.style_properties"])
